@@ -894,9 +894,20 @@ func (it *Interp) runPath(entry *ssa.Function, prefix []dec, model map[string]ui
 				outcome = "pruned: " + e.why
 			case boundHit:
 				outcome = "bound: " + e.why
+				// inputs that lead here, when the solver still answers (a budget hit may be a loop in the code under test)
+				ins := ""
+				at := it.where()
+				if it.cfg.Concrete == nil {
+					it.stack = it.stack[:0]
+					if r, m := it.check(nil, it.inputVars()); r == smt.Sat {
+						for _, in := range it.modelInputs(m) {
+							ins += fmt.Sprintf(" %s=%d", in.Name, in.Value)
+						}
+					}
+				}
 				it.sh.res.mu.Lock()
 				if len(it.sh.res.BoundHits) < 20 {
-					it.sh.res.BoundHits = append(it.sh.res.BoundHits, e.why+" at "+it.where())
+					it.sh.res.BoundHits = append(it.sh.res.BoundHits, e.why+" at "+at+" | inputs:"+ins)
 				}
 				it.sh.res.mu.Unlock()
 			case unsupportedErr:
